@@ -1,3 +1,811 @@
 // harnesses mounted as child module of agdb/src/query/query_condition.rs
 #[allow(unused_imports)]
 use super::*;
+
+// =============================================================================
+// C15 — "search conditions select and prune exactly as documented": the
+// evaluator kernels that do not need a database object.
+//
+// Documentation used as the oracle (agdb_web/content/docs/03.references/01.queries.md,
+// section "Conditions" / "Truth tables", and the doc comments of
+// query_condition.rs / query_builder/where_.rs):
+//
+//   And:  C,C->C  C,S->S  C,F->F  S,S->S  S,F->F  F,F->F     value: left && right
+//   Or:   C,C->C  C,S->C  C,F->C  S,S->S  S,F->S  F,F->F     value: left || right
+//   (the documentation lists the six unordered pairs: the tables are symmetric)
+//   Not: `!` (flips the value, keeps the control kind)
+//   "The condition comparators are type strict meaning that they do not perform
+//   type conversions nor coercion (e.g. Comparison::Equal(1_i64).compare(1_u64)
+//   will evaluate to false). Slight exception ... Comparison::Contains as it
+//   allows vectorized version of the base type ... StartsWith and EndsWith are
+//   provided with the same semantics ... (both single value and vectorized and
+//   vice versa)"; `Comparison` doc: "does not support the bytes and integral
+//   types where the contains makes little sense".
+// =============================================================================
+
+use std::cmp::Ordering;
+
+pub(crate) const C15_C: u8 = 0; // Continue
+pub(crate) const C15_F: u8 = 1; // Finish
+pub(crate) const C15_S: u8 = 2; // Stop
+
+// Documented truth tables, transcribed as data: [left kind][right kind] -> kind
+pub(crate) const C15_AND: [[u8; 3]; 3] = [
+    //            right: C      F      S
+    /* left C */ [C15_C, C15_F, C15_S],
+    /* left F */ [C15_F, C15_F, C15_F],
+    /* left S */ [C15_S, C15_F, C15_S],
+];
+pub(crate) const C15_OR: [[u8; 3]; 3] = [
+    //            right: C      F      S
+    /* left C */ [C15_C, C15_C, C15_C],
+    /* left F */ [C15_C, C15_F, C15_S],
+    /* left S */ [C15_C, C15_S, C15_S],
+];
+
+pub(crate) fn c15_mk(kind: u8, v: bool) -> SearchControl {
+    match kind {
+        C15_C => SearchControl::Continue(v),
+        C15_F => SearchControl::Finish(v),
+        _ => SearchControl::Stop(v),
+    }
+}
+
+pub(crate) fn c15_kind(c: &SearchControl) -> u8 {
+    match c {
+        SearchControl::Continue(_) => C15_C,
+        SearchControl::Finish(_) => C15_F,
+        SearchControl::Stop(_) => C15_S,
+    }
+}
+
+pub(crate) fn c15_val(c: &SearchControl) -> bool {
+    match c {
+        SearchControl::Continue(v) | SearchControl::Finish(v) | SearchControl::Stop(v) => *v,
+    }
+}
+
+//@ id=C15 tier=quick timeout=300 bounds="all 6x6 pairs of {Continue,Finish,Stop}x{true,false} (symbolic)" desc="SearchControl::and / or / flip / is_true / set_value agree with the documented truth tables (transcribed as data) for every pair of control values" kernel="SearchControl::and,SearchControl::or,SearchControl::flip,SearchControl::is_true,SearchControl::set_value" args="--no-assertion-reach-checks"
+#[kani::proof]
+fn c15_search_control_truth_tables() {
+    let lk: u8 = kani::any();
+    let rk: u8 = kani::any();
+    kani::assume(lk < 3 && rk < 3);
+    let lv: bool = kani::any();
+    let rv: bool = kani::any();
+    let left = c15_mk(lk, lv);
+    let right = c15_mk(rk, rv);
+
+    let a = left.and(right);
+    assert!(c15_kind(&a) == C15_AND[lk as usize][rk as usize], "and: control kind differs from the documented table");
+    assert!(c15_val(&a) == (lv && rv), "and: value is not left && right");
+
+    let o = left.or(right);
+    assert!(c15_kind(&o) == C15_OR[lk as usize][rk as usize], "or: control kind differs from the documented table");
+    assert!(c15_val(&o) == (lv || rv), "or: value is not left || right");
+
+    // the documented tables are unordered pairs: both operators are commutative
+    assert!(right.and(left) == a, "and is not symmetric");
+    assert!(right.or(left) == o, "or is not symmetric");
+    // Continue(true) is the documented starting value: neutral for `and`
+    assert!(SearchControl::Continue(true).and(right) == right, "Continue(true) is not neutral for and");
+
+    let mut f = left;
+    f.flip();
+    assert!(c15_kind(&f) == lk && c15_val(&f) == !lv, "flip must negate the value and keep the kind");
+    assert!(left.is_true() == lv, "is_true");
+    let mut sv = left;
+    sv.set_value(rv);
+    assert!(c15_kind(&sv) == lk && c15_val(&sv) == rv, "set_value must keep the kind");
+
+    kani::cover!(lk == C15_F && rk == C15_S, "Finish/Stop pair explored");
+    kani::cover!(lk == C15_S && rk == C15_C && lv && !rv, "Stop(true)/Continue(false) explored");
+    kani::cover!(true, "end of harness reachable");
+}
+
+pub(crate) fn c15_count_cmp(op: u8, n: u64) -> CountComparison {
+    match op {
+        0 => CountComparison::Equal(n),
+        1 => CountComparison::GreaterThan(n),
+        2 => CountComparison::GreaterThanOrEqual(n),
+        3 => CountComparison::LessThan(n),
+        4 => CountComparison::LessThanOrEqual(n),
+        _ => CountComparison::NotEqual(n),
+    }
+}
+
+// arithmetic meaning: `x OP n`
+fn c15_arith(op: u8, x: u64, n: u64) -> bool {
+    match op {
+        0 => x == n,
+        1 => x > n,
+        2 => x >= n,
+        3 => x < n,
+        4 => x <= n,
+        _ => x != n,
+    }
+}
+
+//@ id=C15 tier=quick timeout=300 bounds="all six comparison kinds, all u64 pairs" desc="CountComparison::compare(x) (edge_count* conditions) is exactly the arithmetic relation x OP n" kernel="CountComparison::compare" args="--no-assertion-reach-checks"
+#[kani::proof]
+fn c15_count_compare_arithmetic() {
+    let op: u8 = kani::any();
+    kani::assume(op < 6);
+    let n: u64 = kani::any();
+    let x: u64 = kani::any();
+    let r = c15_count_cmp(op, n).compare(x);
+    assert!(r == c15_arith(op, x, n), "CountComparison::compare differs from the arithmetic relation");
+    kani::cover!(op == 2 && x == n, "GreaterThanOrEqual at equality");
+    kani::cover!(op == 3 && x == n, "LessThan at equality");
+    kani::cover!(true, "end of harness reachable");
+}
+
+//@ id=C15 tier=quick timeout=300 bounds="all six comparison kinds, all u64 (distance, n) pairs, one further symbolic deeper distance" desc="CountComparison::compare_distance: selection value is the arithmetic relation; never Finish; Stop only if no deeper element can satisfy the comparison (search stays complete); Equal stops at the distance itself and Equal/LessThan/LessThanOrEqual stop once the distance is past the bound (documented depth limiting); GreaterThan*/NotEqual never stop" kernel="CountComparison::compare_distance" args="--no-assertion-reach-checks"
+#[kani::proof]
+fn c15_compare_distance_selects_and_prunes() {
+    let op: u8 = kani::any();
+    kani::assume(op < 6);
+    let n: u64 = kani::any();
+    let d: u64 = kani::any();
+    let c = c15_count_cmp(op, n).compare_distance(d);
+    let kind = c15_kind(&c);
+
+    // selection: "if the current distance of the search satisfies the numerical comparison"
+    assert!(c15_val(&c) == c15_arith(op, d, n), "distance: selection value differs from the arithmetic relation");
+    // "Finish ... is only used internally with offset and limit"
+    assert!(kind != C15_F, "distance condition must never yield Finish");
+    // completeness of the search: a branch is cut only if nothing deeper can pass
+    let deeper: u64 = kani::any();
+    if kind == C15_S && deeper > d {
+        assert!(!c15_arith(op, deeper, n), "distance: search stopped although a deeper element satisfies the comparison");
+    }
+    // documented depth limiting ("it tells it when to stop searching",
+    // "Search at most to distance 2"): the comparisons with an upper bound stop
+    // once the current element fails and nothing at this or a deeper distance can pass
+    let upper_bounded = op == 0 || op == 3 || op == 4;
+    if upper_bounded && !c15_arith(op, d, n) && d > n {
+        assert!(kind == C15_S, "distance: past the bound the search must stop");
+    }
+    if op == 3 && d == n {
+        assert!(kind == C15_S, "distance: LessThan(n) must stop at distance n");
+    }
+    if op == 0 && d == n {
+        assert!(kind == C15_S, "distance: Equal(n) must select and stop at distance n");
+    }
+    // comparisons without an upper bound never cut the search
+    if !upper_bounded {
+        assert!(kind == C15_C, "distance: GreaterThan/GreaterThanOrEqual/NotEqual must continue");
+    }
+
+    kani::cover!(op == 0 && d == n, "Equal at the distance");
+    kani::cover!(op == 4 && d == n, "LessThanOrEqual at the bound");
+    kani::cover!(op == 3 && d < n && n - d == 1, "LessThan just below the bound");
+    kani::cover!(kind == C15_S && !c15_val(&c), "Stop(false) explored");
+    kani::cover!(true, "end of harness reachable");
+}
+
+// -----------------------------------------------------------------------------
+// Comparison::compare over symbolic DbValue
+// -----------------------------------------------------------------------------
+
+const C15_BYTES: u8 = 0;
+const C15_I64: u8 = 1;
+const C15_U64: u8 = 2;
+const C15_F64: u8 = 3;
+const C15_STRING: u8 = 4;
+const C15_VEC_I64: u8 = 5;
+const C15_VEC_U64: u8 = 6;
+const C15_VEC_F64: u8 = 7;
+const C15_VEC_STRING: u8 = 8;
+
+// Plain model of a DbValue with small payload; `c15_build` makes the real one.
+#[derive(Clone, Copy)]
+struct C15Val {
+    tag: u8,
+    n: usize,            // number of bytes (Bytes, <= 3) / elements (Vec*, <= 2)
+    b: [u8; 3],          // Bytes payload
+    w: [u64; 2],         // I64 / U64 / F64 (raw bits), scalars use w[0]
+    s: [[u8; 2]; 2],     // String (s[0]) / VecString, ASCII
+    sl: [usize; 2],      // string lengths <= 2
+}
+
+// `tag` may be concrete (the harness loops over variants) or symbolic
+fn c15_any_val(tag: u8) -> C15Val {
+    let v = C15Val {
+        tag,
+        n: kani::any(),
+        b: kani::any(),
+        w: kani::any(),
+        s: kani::any(),
+        sl: kani::any(),
+    };
+    kani::assume(v.tag <= 8);
+    kani::assume(v.n <= if v.tag == C15_BYTES { 3 } else { 2 });
+    kani::assume(v.sl[0] <= 2 && v.sl[1] <= 2);
+    kani::assume(v.s[0][0] < 128 && v.s[0][1] < 128 && v.s[1][0] < 128 && v.s[1][1] < 128);
+    v
+}
+
+fn c15_string(bytes: &[u8; 2], len: usize) -> String {
+    let mut v: Vec<u8> = Vec::with_capacity(2);
+    let mut i = 0;
+    while i < len {
+        v.push(bytes[i]);
+        i += 1;
+    }
+    // ASCII only (assumed in c15_any_val)
+    unsafe { String::from_utf8_unchecked(v) }
+}
+
+fn c15_build(v: &C15Val) -> DbValue {
+    match v.tag {
+        C15_BYTES => {
+            let mut x: Vec<u8> = Vec::with_capacity(3);
+            let mut i = 0;
+            while i < v.n {
+                x.push(v.b[i]);
+                i += 1;
+            }
+            DbValue::Bytes(x)
+        }
+        C15_I64 => DbValue::I64(v.w[0] as i64),
+        C15_U64 => DbValue::U64(v.w[0]),
+        C15_F64 => DbValue::F64(f64::from_bits(v.w[0]).into()),
+        C15_STRING => DbValue::String(c15_string(&v.s[0], v.sl[0])),
+        C15_VEC_I64 => {
+            let mut x: Vec<i64> = Vec::with_capacity(2);
+            let mut i = 0;
+            while i < v.n {
+                x.push(v.w[i] as i64);
+                i += 1;
+            }
+            DbValue::VecI64(x)
+        }
+        C15_VEC_U64 => {
+            let mut x: Vec<u64> = Vec::with_capacity(2);
+            let mut i = 0;
+            while i < v.n {
+                x.push(v.w[i]);
+                i += 1;
+            }
+            DbValue::VecU64(x)
+        }
+        C15_VEC_F64 => {
+            let mut x: Vec<crate::DbF64> = Vec::with_capacity(2);
+            let mut i = 0;
+            while i < v.n {
+                x.push(f64::from_bits(v.w[i]).into());
+                i += 1;
+            }
+            DbValue::VecF64(x)
+        }
+        _ => {
+            let mut x: Vec<String> = Vec::with_capacity(2);
+            let mut i = 0;
+            while i < v.n {
+                x.push(c15_string(&v.s[i], v.sl[i]));
+                i += 1;
+            }
+            DbValue::VecString(x)
+        }
+    }
+}
+
+// The operator is always CONCRETE at the call site (a symbolic operator makes
+// CBMC execute every arm of `Comparison::compare`, incl. `str::contains`, for
+// every call). `compare` borrows; the value is handed back for the next operator.
+fn c15_compare_with(op: u8, left: &DbValue, right: DbValue) -> (bool, DbValue) {
+    let cmp = match op {
+        0 => Comparison::Equal(right),
+        1 => Comparison::GreaterThan(right),
+        2 => Comparison::GreaterThanOrEqual(right),
+        3 => Comparison::LessThan(right),
+        4 => Comparison::LessThanOrEqual(right),
+        5 => Comparison::NotEqual(right),
+        6 => Comparison::Contains(right),
+        7 => Comparison::StartsWith(right),
+        _ => Comparison::EndsWith(right),
+    };
+    let got = cmp.compare(left);
+    let right = match cmp {
+        Comparison::Equal(v)
+        | Comparison::GreaterThan(v)
+        | Comparison::GreaterThanOrEqual(v)
+        | Comparison::LessThan(v)
+        | Comparison::LessThanOrEqual(v)
+        | Comparison::NotEqual(v)
+        | Comparison::Contains(v)
+        | Comparison::StartsWith(v)
+        | Comparison::EndsWith(v) => v,
+    };
+    (got, right)
+}
+
+// IEEE-754 totalOrder on raw bits (what `DbF64` documents: `f64::total_cmp`),
+// written as sign/magnitude comparison.
+fn c15_f64_total(a: u64, b: u64) -> Ordering {
+    const MAG: u64 = u64::MAX >> 1;
+    let (na, nb) = (a >> 63 == 1, b >> 63 == 1);
+    let (ma, mb) = (a & MAG, b & MAG);
+    match (na, nb) {
+        (false, false) => ma.cmp(&mb),
+        (true, true) => mb.cmp(&ma),
+        (true, false) => Ordering::Less,
+        (false, true) => Ordering::Greater,
+    }
+}
+
+// lexicographic, shorter prefix first; lengths <= 3. Arrays by value and explicit
+// indices on purpose: with sub-slices taken at a symbolic index
+// (`&a.s[i][..len]`) CBMC produced a spurious counterexample for this reference.
+fn c15_bytes_cmp(a: [u8; 3], alen: usize, b: [u8; 3], blen: usize) -> Ordering {
+    let mut i = 0;
+    while i < 3 {
+        if i < alen && i < blen && a[i] != b[i] {
+            return if a[i] < b[i] { Ordering::Less } else { Ordering::Greater };
+        }
+        if i >= alen || i >= blen {
+            break;
+        }
+        i += 1;
+    }
+    alen.cmp(&blen)
+}
+
+fn c15_str3(v: &C15Val, i: usize) -> ([u8; 3], usize) {
+    let (s, l) = if i == 0 { (v.s[0], v.sl[0]) } else { (v.s[1], v.sl[1]) };
+    ([s[0], s[1], 0], l)
+}
+
+fn c15_elem_cmp(tag: u8, a: &C15Val, i: usize, b: &C15Val, j: usize) -> Ordering {
+    let (wa, wb) = (if i == 0 { a.w[0] } else { a.w[1] }, if j == 0 { b.w[0] } else { b.w[1] });
+    match tag {
+        C15_I64 | C15_VEC_I64 => (wa as i64).cmp(&(wb as i64)),
+        C15_U64 | C15_VEC_U64 => wa.cmp(&wb),
+        C15_F64 | C15_VEC_F64 => c15_f64_total(wa, wb),
+        _ => {
+            let (sa, la) = c15_str3(a, i);
+            let (sb, lb) = c15_str3(b, j);
+            c15_bytes_cmp(sa, la, sb, lb)
+        }
+    }
+}
+
+// The payload's own order for two values of the SAME variant.
+fn c15_same_variant_cmp(a: &C15Val, b: &C15Val) -> Ordering {
+    match a.tag {
+        C15_BYTES => c15_bytes_cmp(a.b, a.n, b.b, b.n),
+        C15_I64 | C15_U64 | C15_F64 | C15_STRING => c15_elem_cmp(a.tag, a, 0, b, 0),
+        _ => {
+            // vectors: lexicographic over elements, shorter prefix first
+            let mut i = 0;
+            while i < 2 {
+                if i >= a.n || i >= b.n {
+                    break;
+                }
+                let o = c15_elem_cmp(a.tag, a, i, b, i);
+                if o != Ordering::Equal {
+                    return o;
+                }
+                i += 1;
+            }
+            a.n.cmp(&b.n)
+        }
+    }
+}
+
+fn c15_order_holds(op: u8, o: Ordering) -> bool {
+    match op {
+        0 => o == Ordering::Equal,
+        1 => o == Ordering::Greater,
+        2 => o != Ordering::Less,
+        3 => o == Ordering::Less,
+        4 => o != Ordering::Greater,
+        _ => o != Ordering::Equal,
+    }
+}
+
+// All six relational operators on one pair of values of the same (concrete) variant.
+// Returns (LessThan, GreaterThan, model left, model right) for the covers.
+fn c15_same_type_body(tag: u8) -> (bool, bool, C15Val, C15Val) {
+    let l = c15_any_val(tag);
+    let r = c15_any_val(tag);
+    let left = c15_build(&l);
+    let right = c15_build(&r);
+    let order = c15_same_variant_cmp(&l, &r);
+    let (eq, right) = c15_compare_with(0, &left, right);
+    let (gt, right) = c15_compare_with(1, &left, right);
+    let (ge, right) = c15_compare_with(2, &left, right);
+    let (lt, right) = c15_compare_with(3, &left, right);
+    let (le, right) = c15_compare_with(4, &left, right);
+    let (ne, right) = c15_compare_with(5, &left, right);
+    assert!(eq == c15_order_holds(0, order), "same type: Equal differs from the payload's own order");
+    assert!(gt == c15_order_holds(1, order), "same type: GreaterThan differs from the payload's own order");
+    assert!(ge == c15_order_holds(2, order), "same type: GreaterThanOrEqual differs from the payload's own order");
+    assert!(lt == c15_order_holds(3, order), "same type: LessThan differs from the payload's own order");
+    assert!(le == c15_order_holds(4, order), "same type: LessThanOrEqual differs from the payload's own order");
+    assert!(ne == c15_order_holds(5, order), "same type: NotEqual differs from the payload's own order");
+    std::mem::forget(left);
+    std::mem::forget(right);
+    (lt, gt, l, r)
+}
+
+//@ id=C15 tier=quick timeout=900 bounds="both sides I64 / U64 / F64 (any 64 bits, incl. NaN, -0) / String (<= 2 ASCII bytes) / Bytes (<= 3 bytes); all of Equal,GreaterThan,GreaterThanOrEqual,LessThan,LessThanOrEqual,NotEqual on each pair" desc="Comparison::compare between scalar values of the same type agrees with the payload's own order: integers numerically, f64 by IEEE total order (as DbF64 documents), strings and bytes lexicographically" kernel="Comparison::compare" args="--no-assertion-reach-checks"
+#[kani::proof]
+#[kani::unwind(5)]
+fn c15_compare_same_type_scalars() {
+    let (lt, _, l, r) = c15_same_type_body(C15_I64);
+    kani::cover!((l.w[0] as i64) < 0 && r.w[0] == 0 && lt, "negative i64 below zero");
+    let (lt, _, l, r) = c15_same_type_body(C15_U64);
+    kani::cover!(lt && l.w[0] == 0 && r.w[0] == u64::MAX, "u64 extremes");
+    let (lt, _, l, r) = c15_same_type_body(C15_F64);
+    kani::cover!(lt && (l.w[0] >> 63) == 1 && (r.w[0] >> 63) == 1, "two negative f64");
+    kani::cover!(lt && l.w[0] == 1u64 << 63 && r.w[0] == 0, "-0.0 < +0.0 in the total order");
+    let (_, gt, l, r) = c15_same_type_body(C15_STRING);
+    kani::cover!(gt && l.sl[0] == 2 && r.sl[0] == 1, "longer string with equal prefix is greater");
+    let (_, gt, l, r) = c15_same_type_body(C15_BYTES);
+    kani::cover!(gt && l.n == 3 && r.n == 2, "Bytes: longer value with equal prefix is greater");
+    kani::cover!(true, "end of harness reachable");
+}
+
+//@ id=C15 tier=quick timeout=900 bounds="both sides VecI64 / VecU64 / VecF64 with <= 2 elements (any 64 bits); all six relational operators on each pair" desc="Comparison::compare between numeric vectors of the same type is the lexicographic order of the elements' own order (f64: total order), shorter prefix first" kernel="Comparison::compare" cbmc="--unwindset memcmp.0:18" args="--no-assertion-reach-checks"
+#[kani::proof]
+#[kani::unwind(5)]
+fn c15_compare_same_type_numeric_vectors() {
+    let (lt, _, l, r) = c15_same_type_body(C15_VEC_I64);
+    kani::cover!(lt && l.n == 2 && r.n == 2 && l.w[0] == r.w[0], "VecI64 decided by the second element");
+    let (_, gt, l, r) = c15_same_type_body(C15_VEC_U64);
+    kani::cover!(gt && l.n == 2 && r.n == 1, "VecU64: longer vector with equal prefix is greater");
+    let (lt, gt, l, r) = c15_same_type_body(C15_VEC_F64);
+    kani::cover!(!lt && !gt && l.n == 2, "equal f64 vectors");
+    kani::cover!(true, "end of harness reachable");
+}
+
+//@ id=C15 tier=quick timeout=900 bounds="both sides VecString with <= 2 strings of <= 2 ASCII bytes; all six relational operators" desc="Comparison::compare between string vectors is the lexicographic order of the strings' own (bytewise) order, shorter prefix first" kernel="Comparison::compare" args="--no-assertion-reach-checks"
+#[kani::proof]
+#[kani::unwind(5)]
+fn c15_compare_same_type_string_vectors() {
+    let (_, gt, l, r) = c15_same_type_body(C15_VEC_STRING);
+    kani::cover!(gt && l.n == 2 && r.n == 2 && l.sl[0] == r.sl[0] && l.s[0][0] == r.s[0][0] && l.sl[0] == 1, "VecString GreaterThan decided by the second string");
+    kani::cover!(true, "end of harness reachable");
+}
+
+//@ id=C15 tier=quick timeout=900 bounds="two DbValues of DIFFERENT variants (symbolic, all 9x8 pairs), small payloads as above; Equal and NotEqual on each pair" desc="type strictness of equality: between values of different types Equal is false and NotEqual is true" kernel="Comparison::compare" args="--no-assertion-reach-checks"
+#[kani::proof]
+#[kani::unwind(5)]
+fn c15_compare_equality_is_type_strict() {
+    let l = c15_any_val(kani::any());
+    let r = c15_any_val(kani::any());
+    kani::assume(l.tag != r.tag);
+    let left = c15_build(&l);
+    let right = c15_build(&r);
+    let (eq, right) = c15_compare_with(0, &left, right);
+    let (ne, right) = c15_compare_with(5, &left, right);
+    assert!(!eq, "Equal holds between values of different types");
+    assert!(ne, "NotEqual does not hold between values of different types");
+    kani::cover!(l.tag == C15_I64 && r.tag == C15_U64 && l.w[0] == r.w[0], "1_i64 vs 1_u64 (the documented example)");
+    kani::cover!(l.tag == C15_VEC_U64 && r.tag == C15_VEC_I64 && l.n == 0 && r.n == 0, "empty vectors of different types");
+    kani::cover!(true, "end of harness reachable");
+    std::mem::forget(left);
+    std::mem::forget(right);
+}
+
+//@ id=C15 tier=quick timeout=900 bounds="two DbValues of DIFFERENT variants (symbolic, all 9x8 pairs), small payloads as above; GreaterThan, GreaterThanOrEqual, LessThan, LessThanOrEqual on each pair" desc="type strictness of the ordering comparisons: between values of different types GreaterThan, GreaterThanOrEqual, LessThan, LessThanOrEqual are all false (no coercion, no ordering by kind of value)" kernel="Comparison::compare" args="--no-assertion-reach-checks"
+#[kani::proof]
+#[kani::unwind(5)]
+fn c15_compare_ordering_is_type_strict() {
+    let l = c15_any_val(kani::any());
+    let r = c15_any_val(kani::any());
+    kani::assume(l.tag != r.tag);
+    let left = c15_build(&l);
+    let right = c15_build(&r);
+    let (gt, right) = c15_compare_with(1, &left, right);
+    let (ge, right) = c15_compare_with(2, &left, right);
+    let (lt, right) = c15_compare_with(3, &left, right);
+    let (le, right) = c15_compare_with(4, &left, right);
+    // one assertion per path so that every operator is reported on its own
+    // (Kani assumes an assertion's condition after checking it)
+    let which: u8 = kani::any();
+    match which {
+        1 => assert!(!gt, "GreaterThan holds between values of different types"),
+        2 => assert!(!ge, "GreaterThanOrEqual holds between values of different types"),
+        3 => assert!(!lt, "LessThan holds between values of different types"),
+        _ => assert!(!le, "LessThanOrEqual holds between values of different types"),
+    }
+    kani::cover!(l.tag == C15_U64 && r.tag == C15_I64, "u64 property vs i64 value (the probe of the property)");
+    kani::cover!(l.tag == C15_BYTES && r.tag == C15_I64, "bytes property vs i64 value");
+    kani::cover!(true, "end of harness reachable");
+    std::mem::forget(left);
+    std::mem::forget(right);
+}
+
+// ---- Contains / StartsWith / EndsWith ---------------------------------------
+
+// Documented supported (property, this) pairs: String with String or
+// VecString; a vector with its element type or the same vector type; for
+// element types i64, u64, f64, string. Bytes and scalar numbers as the
+// property are not supported ("does 3 contain 1?").
+fn c15_contains_pair_supported(l: u8, r: u8) -> bool {
+    match (l, r) {
+        (C15_STRING, C15_STRING) | (C15_STRING, C15_VEC_STRING) => true,
+        (C15_VEC_I64, C15_I64) | (C15_VEC_I64, C15_VEC_I64) => true,
+        (C15_VEC_U64, C15_U64) | (C15_VEC_U64, C15_VEC_U64) => true,
+        (C15_VEC_F64, C15_F64) | (C15_VEC_F64, C15_VEC_F64) => true,
+        (C15_VEC_STRING, C15_STRING) | (C15_VEC_STRING, C15_VEC_STRING) => true,
+        _ => false,
+    }
+}
+
+//@ id=C15 tier=quick timeout=1500 bounds="every one of the 71 (property, value) variant pairs outside the ten documented supported pairs (concrete loop); one symbolic small payload per variant and side (shared between the pairs); Contains, StartsWith, EndsWith on each pair" desc="type strictness of Contains/StartsWith/EndsWith: false for every (property, value) type pair other than the documented vector/element and string pairs" kernel="Comparison::compare" args="--no-assertion-reach-checks"
+#[kani::proof]
+#[kani::unwind(10)]
+fn c15_compare_contains_family_is_type_strict() {
+    // one value per variant for each side, built once
+    let lefts: [DbValue; 9] = [
+        c15_build(&c15_any_val(0)),
+        c15_build(&c15_any_val(1)),
+        c15_build(&c15_any_val(2)),
+        c15_build(&c15_any_val(3)),
+        c15_build(&c15_any_val(4)),
+        c15_build(&c15_any_val(5)),
+        c15_build(&c15_any_val(6)),
+        c15_build(&c15_any_val(7)),
+        c15_build(&c15_any_val(8)),
+    ];
+    let mut rights: [Option<DbValue>; 9] = [
+        Some(c15_build(&c15_any_val(0))),
+        Some(c15_build(&c15_any_val(1))),
+        Some(c15_build(&c15_any_val(2))),
+        Some(c15_build(&c15_any_val(3))),
+        Some(c15_build(&c15_any_val(4))),
+        Some(c15_build(&c15_any_val(5))),
+        Some(c15_build(&c15_any_val(6))),
+        Some(c15_build(&c15_any_val(7))),
+        Some(c15_build(&c15_any_val(8))),
+    ];
+    let mut pairs = 0;
+    let mut lt = 0usize;
+    while lt <= 8 {
+        let mut rt = 0usize;
+        while rt <= 8 {
+            if !c15_contains_pair_supported(lt as u8, rt as u8) {
+                let right = rights[rt].take().unwrap();
+                let (c, right) = c15_compare_with(6, &lefts[lt], right);
+                let (s, right) = c15_compare_with(7, &lefts[lt], right);
+                let (e, right) = c15_compare_with(8, &lefts[lt], right);
+                assert!(!c, "Contains holds for an unsupported type pair");
+                assert!(!s, "StartsWith holds for an unsupported type pair");
+                assert!(!e, "EndsWith holds for an unsupported type pair");
+                rights[rt] = Some(right);
+                pairs += 1;
+            }
+            rt += 1;
+        }
+        lt += 1;
+    }
+    assert!(pairs == 81 - 10, "ten supported pairs are documented");
+    kani::cover!(true, "end of harness reachable");
+    std::mem::forget(lefts);
+    std::mem::forget(rights);
+}
+
+fn c15_elem_eq(tag: u8, a: &C15Val, i: usize, b: &C15Val, j: usize) -> bool {
+    c15_elem_cmp(tag, a, i, b, j) == Ordering::Equal
+}
+
+// Reference for the supported numeric pairs: left is a vector (<= 2), right is
+// one element (rn == None) or a vector.
+fn c15_ref_vec_family(op: u8, etag: u8, l: &C15Val, r: &C15Val, r_is_vec: bool) -> bool {
+    let rn = if r_is_vec { r.n } else { 1 };
+    match op {
+        6 => {
+            // contains: every right element occurs somewhere in left
+            let mut all = true;
+            let mut j = 0;
+            while j < 2 {
+                if j < rn {
+                    let mut found = false;
+                    let mut i = 0;
+                    while i < 2 {
+                        if i < l.n && c15_elem_eq(etag, l, i, r, j) {
+                            found = true;
+                        }
+                        i += 1;
+                    }
+                    if !found {
+                        all = false;
+                    }
+                }
+                j += 1;
+            }
+            all
+        }
+        7 => {
+            // starts_with: right is a prefix of left
+            if rn > l.n {
+                return false;
+            }
+            let mut ok = true;
+            let mut j = 0;
+            while j < 2 {
+                if j < rn && !c15_elem_eq(etag, l, j, r, j) {
+                    ok = false;
+                }
+                j += 1;
+            }
+            ok
+        }
+        _ => {
+            // ends_with: right is a suffix of left
+            if rn > l.n {
+                return false;
+            }
+            let off = l.n - rn;
+            let mut ok = true;
+            let mut j = 0;
+            while j < 2 {
+                if j < rn && !c15_elem_eq(etag, l, off + j, r, j) {
+                    ok = false;
+                }
+                j += 1;
+            }
+            ok
+        }
+    }
+}
+
+fn c15_vector_pair_body(ltag: u8, r_is_vec: bool) {
+    let etag = ltag - 4; // VecI64 -> I64, VecU64 -> U64, VecF64 -> F64, VecString -> String
+    let l = c15_any_val(ltag);
+    let r = c15_any_val(if r_is_vec { ltag } else { etag });
+    let left = c15_build(&l);
+    let right = c15_build(&r);
+    let (c, right) = c15_compare_with(6, &left, right);
+    let (s, right) = c15_compare_with(7, &left, right);
+    let (e, right) = c15_compare_with(8, &left, right);
+    assert!(c == c15_ref_vec_family(6, etag, &l, &r, r_is_vec), "vector Contains differs from the documented meaning");
+    assert!(s == c15_ref_vec_family(7, etag, &l, &r, r_is_vec), "vector StartsWith differs from the documented meaning");
+    assert!(e == c15_ref_vec_family(8, etag, &l, &r, r_is_vec), "vector EndsWith differs from the documented meaning");
+    if r_is_vec {
+        kani::cover!(c && l.n == 2 && r.n == 2 && !s, "contains all elements in a different order");
+        kani::cover!(!s && l.n == 1 && r.n == 2, "longer vector is not a prefix");
+        kani::cover!(e && !s && r.n == 1 && l.n == 2, "proper suffix");
+    } else {
+        kani::cover!(c && s && !e && l.n == 2, "starts with but does not end with the element");
+        kani::cover!(e && !s && l.n == 2, "ends with but does not start with the element");
+    }
+    std::mem::forget(left);
+    std::mem::forget(right);
+}
+
+//@ id=C15 tier=quick timeout=1200 bounds="property VecI64 / VecU64 / VecF64 with <= 2 elements (any 64 bits), value the element type or the same vector type (<= 2 elements); Contains, StartsWith, EndsWith on each pair" desc="the documented vector/element exception for numeric vectors: contains = every element occurs, starts_with = prefix, ends_with = suffix; f64 elements compared as DbF64 (total order equality)" kernel="Comparison::compare" cbmc="--unwindset memcmp.0:18" args="--no-assertion-reach-checks"
+#[kani::proof]
+#[kani::unwind(5)]
+fn c15_compare_contains_family_numeric_vectors() {
+    c15_vector_pair_body(C15_VEC_I64, false);
+    c15_vector_pair_body(C15_VEC_I64, true);
+    c15_vector_pair_body(C15_VEC_U64, false);
+    c15_vector_pair_body(C15_VEC_U64, true);
+    c15_vector_pair_body(C15_VEC_F64, false);
+    c15_vector_pair_body(C15_VEC_F64, true);
+    kani::cover!(true, "end of harness reachable");
+}
+
+//@ id=C15 tier=quick timeout=900 bounds="property VecString with <= 2 strings of <= 2 ASCII bytes, value a String or a VecString (<= 2); Contains, StartsWith, EndsWith" desc="the documented vector/element exception for string vectors: contains = every string occurs as an element, starts_with = prefix, ends_with = suffix" kernel="Comparison::compare" args="--no-assertion-reach-checks"
+#[kani::proof]
+#[kani::unwind(5)]
+fn c15_compare_contains_family_string_vectors() {
+    c15_vector_pair_body(C15_VEC_STRING, false);
+    c15_vector_pair_body(C15_VEC_STRING, true);
+    kani::cover!(true, "end of harness reachable");
+}
+
+
+// ---- String property with String / VecString value ---------------------------
+
+// does `needle` occur in `hay` at position `at` (lengths <= 2 / <= 4)
+fn c15_occurs_at(hay: &[u8; 4], hay_len: usize, at: usize, needle: [u8; 3], needle_len: usize) -> bool {
+    if at + needle_len > hay_len {
+        return false;
+    }
+    let mut ok = true;
+    let mut i = 0;
+    while i < 2 {
+        if i < needle_len && hay[at + i] != needle[i] {
+            ok = false;
+        }
+        i += 1;
+    }
+    ok
+}
+
+fn c15_substring(hay: &[u8; 4], hay_len: usize, needle: [u8; 3], needle_len: usize) -> bool {
+    let mut found = false;
+    let mut at = 0;
+    while at <= 2 {
+        if c15_occurs_at(hay, hay_len, at, needle, needle_len) {
+            found = true;
+        }
+        at += 1;
+    }
+    found
+}
+
+// concatenation of the (<= 2) strings of a VecString model: (bytes, len <= 4)
+fn c15_concat(r: &C15Val) -> ([u8; 4], usize) {
+    let mut out = [0u8; 4];
+    let mut len = 0;
+    let mut i = 0;
+    while i < 2 {
+        if i < r.n {
+            let (s, l) = c15_str3(r, i);
+            if l >= 1 {
+                out[len] = s[0];
+                len += 1;
+            }
+            if l >= 2 {
+                out[len] = s[1];
+                len += 1;
+            }
+        }
+        i += 1;
+    }
+    (out, len)
+}
+
+// is needle[..nl] equal to hay[at..at+nl]  (hay_len <= 2, nl <= 4)
+fn c15_matches_at(hay: [u8; 2], hay_len: usize, at: usize, needle: [u8; 4], nl: usize) -> bool {
+    if at + nl > hay_len {
+        return false;
+    }
+    let mut ok = true;
+    let mut i = 0;
+    while i < 2 {
+        if i < nl && hay[at + i] != needle[i] {
+            ok = false;
+        }
+        i += 1;
+    }
+    ok
+}
+
+//@ id=C15 tier=quick timeout=900 bounds="property String of <= 2 ASCII bytes, value a String (<= 2 bytes) or a VecString (<= 2 strings of <= 2 bytes); StartsWith, EndsWith" desc="the documented string exception for StartsWith/EndsWith: with a string value = prefix / suffix, with a list of strings = their concatenation is a prefix / suffix" kernel="Comparison::compare" args="--no-assertion-reach-checks"
+#[kani::proof]
+#[kani::unwind(6)]
+fn c15_compare_string_property_starts_ends() {
+    let l = c15_any_val(C15_STRING);
+    let hay = l.s[0];
+    let hay_len = l.sl[0];
+    let left = c15_build(&l);
+    // value: a single string
+    let r = c15_any_val(C15_STRING);
+    let (n3, nl) = c15_str3(&r, 0);
+    let needle = [n3[0], n3[1], 0, 0];
+    let right = c15_build(&r);
+    let (s, right) = c15_compare_with(7, &left, right);
+    let (e, right) = c15_compare_with(8, &left, right);
+    assert!(s == c15_matches_at(hay, hay_len, 0, needle, nl), "String starts_with String is not the prefix relation");
+    assert!(e == (nl <= hay_len && c15_matches_at(hay, hay_len, hay_len - if nl <= hay_len { nl } else { 0 }, needle, nl)), "String ends_with String is not the suffix relation");
+    kani::cover!(e && !s && hay_len == 2 && nl == 1, "proper suffix");
+    kani::cover!(s && e && nl == 0, "empty string is prefix and suffix");
+    std::mem::forget(right);
+    // value: a list of strings
+    let rv = c15_any_val(C15_VEC_STRING);
+    let (cat, cl) = c15_concat(&rv);
+    let right = c15_build(&rv);
+    let (s, right) = c15_compare_with(7, &left, right);
+    let (e, right) = c15_compare_with(8, &left, right);
+    assert!(s == c15_matches_at(hay, hay_len, 0, cat, cl), "String starts_with [strings] is not 'the concatenation is a prefix'");
+    assert!(e == (cl <= hay_len && c15_matches_at(hay, hay_len, hay_len - if cl <= hay_len { cl } else { 0 }, cat, cl)), "String ends_with [strings] is not 'the concatenation is a suffix'");
+    kani::cover!(s && rv.n == 2 && rv.sl[0] == 1 && rv.sl[1] == 1, "two one-byte strings concatenated equal the property");
+    kani::cover!(!s && cl == 3, "concatenation longer than the property");
+    kani::cover!(true, "end of harness reachable");
+    std::mem::forget(right);
+    std::mem::forget(left);
+}
+
+// Not registered: Contains with a String property (String / VecString value).
+// `str::contains` (two-way / SIMD searcher) costs 190 s of symbolic execution for
+// 2-byte strings; the assertion "contains == substring" was proved (0 of 4433
+// checks failed, 230 s) but the solver then ran out of memory (10 GB) on the
+// cover checks, so the harness cannot report a conclusive result and was dropped.
